@@ -53,7 +53,12 @@ def hash_from_key(prog, fn, op, key_param):
 def _check_own(ctx):
     prog = ctx.prog
     R = Roles(prog)
-    eff = role_effects(prog, R, STORAGE_ROLES)
+    unlink_ids = {R.need("HEAD_WRITE").id, R.need("KEY_REWRITE").id}
+
+    def unlink_label(p, f, t):
+        # "the chain was re-linked": bucket head or a key record rewritten (a helper may do either, depending on the predecessor)
+        return {"UNLINK"} if any(x.id in unlink_ids for x in p.targets(t, f)[0]) else ()
+    eff = role_effects(prog, R, STORAGE_ROLES, extra_call=unlink_label)
     lookup = ctx.anchor("LOOKUP", lambda p: R.need("LOOKUP"))
     if lookup is None:
         return
@@ -270,7 +275,7 @@ def check_ops(ctx, prog, R, eff, lookup):
                 ctx.check(must(some, role), "op-wiring", "del_kt:found:must:" + role,
                           "deleting a present key can return Ok without %s" % role, where=where(fn, some))
                 once(rs, role, "del_kt:found:once:" + role)
-            unl = [b for b in rs if eff.block_must(fn, b, eff.must) & {"HEAD_WRITE", "KEY_REWRITE"}]
+            unl = [b for b in rs if eff.block_must(fn, b, eff.must) & {"HEAD_WRITE", "KEY_REWRITE", "UNLINK"}]
             ctx.check(bool(unl) and not fn.success_reach_return(some, unl), "op-wiring", "del_kt:found:must:unlink",
                       "deleting a present key can return Ok without unlinking it (neither bucket head nor predecessor rewritten)", where=where(fn, some))
             forbid(may_s, {"CNT_UP", "KEY_ALLOC", "VAL_ALLOC"}, "found")
